@@ -10,11 +10,12 @@ place=$(grep -m1 -o 'place in: *[^ ]*' "$m/demo_test.go" | sed 's/place in: *//'
 [ -z "$place" ] && place=$(grep -m1 -o '[a-z]*/[a-z_0-9]*_test.go' "$m/demo_test.go" "$m/notes.md" | head -1 | sed 's/.*://')
 cp "$m/demo_test.go" "$place" 2>/dev/null || { echo "DEMO-PLACE-UNKNOWN $m"; }
 pkg=./$(dirname "$place")
-base=$(go test -vet=off -count=1 -timeout 180s $pkg 2>&1 | tail -1)
+names=$(grep -o "^func Test[A-Za-z0-9_]*" "$m/demo_test.go" | sed "s/func //" | paste -sd"|")
+base=$(go test -vet=off -count=1 -timeout 180s -run "^($names)\$" $pkg 2>&1 | tail -1)
 git apply "$m/patch.diff" || { echo "PATCH-FAILED $m"; exit 2; }
-mut=$(go test -vet=off -count=1 -timeout 180s $pkg 2>&1 | tail -1)
+mut=$(go test -vet=off -count=1 -timeout 180s -run "^($names)\$" $pkg 2>&1 | tail -1)
 rm -f "$place"
 suite=$(go build ./... 2>&1 && go test -vet=off -count=1 ./... 2>&1 | grep -v '^ok' | head -3)
-fired=$(/verif/bin/utilcheck -repo "$wt" -prop $props -no-evidence 2>&1 | grep '^VIOLATION' | sed 's/VIOLATION property=\([A-Z0-9]*\).*/\1/' | sort -u | tr '\n' ' ')
+fired=$(/verif/bin/utilcheck -repo "$wt" -prop $props -no-evidence 2>&1 | grep -a '^VIOLATION' | sed 's/VIOLATION property=\([A-Z0-9]*\).*/\1/' | sort -u | tr '\n' ' ')
 git checkout -q -- . ; git clean -fdq -e _mutants
 echo "MUTANT $m | demo-clean: ${base:0:40} | demo-mutant: ${mut:0:40} | suite-nonok: ${suite:-none} | FIRED: ${fired:-NONE}"
